@@ -255,6 +255,21 @@ def s_status( ctx ):
         0xFF, ( 0x2107, ), 'data type mismatch (type-compatibility assert)' )
     at( lambda s: any( is_call_to( c, 'self.reply_elements' ) for c in ast.walk( s )),
         0xFF, ( 0x2105, ), 'element range error (reply_elements)' )
+    # ---- the generic attribute services: an Attribute the Object does not have is "path destination unknown" there too ( Get / Set Attribute
+    #      Single naming attribute 99 of an existing Object is answered 0x05, as Read Tag on the same path is - not 0x08, "service not supported" )
+    dsrc_ = ctx.src( DEVICE )
+    ofn_ = dsrc_.get( 'Object.request' )
+    ocfg_, ost_ = status_states( dsrc_, ofn_, 'data' )
+    exists_ = [ n for n in ocfg_.nodes if n.kind == 'stmt' and isinstance( n.stmt, ast.Assert ) and n in ost_
+                and any( isinstance( c_, ast.Compare ) and len( c_.ops ) == 1 and isinstance( c_.ops[0], ast.In ) and dotted( c_.comparators[0] ) == 'self.attribute' for c_ in ast.walk( n.stmt.test )) ]
+    if not exists_:
+        raise AnalysisError( 'Object.request: the test that the Attribute named by the path exists ( assert ... in self.attribute ) not found' )
+    for n in exists_:
+        sv = ost_[n].get( 'status', TOP )
+        if sv == frozenset( [ 0x05 ] ):
+            res.ok( dsrc_, n.stmt, 'Object.request: an Attribute the Object does not have fails with status 0x05' )
+        else:
+            res.bad( dsrc_, n.stmt, n.stmt, 'an Attribute the Object does not have must fail with status 0x05, but the pre-set status here is %s' % _show( sv ), func='Object.request' )
     # ---- the routing branch of Connection_Manager.request re-raises; UCMM.request converts to a non-zero encapsulation status
     usrc = ctx.src( UCMM )
     ureq = usrc.get( 'UCMM.request' )
